@@ -1,14 +1,14 @@
 #!/bin/sh
-# usage: tools/seed_own.sh  -- every seeded change against the check of the property it breaks (quick tier); appends to seeded/own.tsv
+# usage: tools/seed_own.sh  -- every seeded change against the check of the property it breaks (quick tier, VERIF_STOP_FIRST sweep mode: task dispatch stops after the first confirmed violation); appends to seeded/own.tsv
 cd /verif
 OUT=seeded/own.tsv
-for s in seeded/C*_[srt][0-9]*/; do
+for s in seeded/C*_[srtu][0-9]*/; do
   n=$(basename $s)
   c=$(python3 -c "import json; print(json.load(open('$s/meta.json'))['breaks_property'])")
   if grep -q "^$n	" $OUT 2>/dev/null; then continue; fi
   D=$(mktemp -d /tmp/mutrepo-XXXXXX); cp -r /repo/include $D/include
   (cd $D && patch -s -p1 < /verif/$s/patch.diff) || { echo "$n	$c	patch-failed" >> $OUT; rm -rf $D; continue; }
-  res=$(SYMX_REPO=$D SYMX_REPLAY=$D/replay SYMX_BUILD=$D/build VERIF_JOBS=${VERIF_JOBS:-8} timeout 2400 ./check $c --tier quick --no-evidence 2>&1)
+  res=$(SYMX_REPO=$D SYMX_REPLAY=$D/replay SYMX_BUILD=$D/build VERIF_STOP_FIRST=1 VERIF_JOBS=${VERIF_JOBS:-8} timeout 2400 ./check $c --tier quick --no-evidence 2>&1)
   rc=$?
   nv=$(printf '%s\n' "$res" | grep -c '^VIOLATION')
   echo "$n	$c	rc=$rc	violation_lines=$nv" >> $OUT
